@@ -211,23 +211,73 @@ def generateFrom (ver : Ver) (H : Bytes → Bytes) (t : Trie) :
 def generate (ver : Ver) (H : Bytes → Bytes) (t : Trie) (keys : List Bytes) : Option (List Bytes) :=
   generateFrom ver H t ([], []) keys
 
-/-- what a proof for `key` has to contain whether or not the key is present: the root and the
-    nodes of 32 bytes or more on the longest path that spells a prefix of the key (and the value
-    of the node when it is held by hash) -/
-def pathNodes (ver : Ver) (H : Bytes → Bytes) : Bool → Trie → Nibs → List Bytes
-  | _, .nil, _ => []
-  | isRoot, .leaf pk v, key =>
-    let enc := encodeNode ver H (.leaf pk v)
+/-! ### the same walk on a trie whose node encodings are computed once (used by the driver; the Go
+nodes carry their Merkle value in the same way after `Load`) -/
+
+inductive ETrie where
+  | nil
+  | leaf (enc : Bytes) (pk : Nibs) (v : Bytes)
+  | branch (enc : Bytes) (pk : Nibs) (v : Option Bytes) (kids : List ETrie)
+
+def ETrie.enc : ETrie → Bytes
+  | .nil => [0]
+  | .leaf e _ _ => e
+  | .branch e _ _ _ => e
+
+def ETrie.isNil : ETrie → Bool
+  | .nil => true
+  | _ => false
+
+/-- the encoding of a branch from the encodings of its children (`encodeNode`, branch case) -/
+def encBranch (ver : Ver) (H : Bytes → Bytes) (pk : Nibs) (v : Option Bytes) (kids : List ETrie) : Bytes :=
+  (match v with
+    | none => header 0x80 0x3f pk.length
+    | some x => if mustBeHashed ver x then header 0x10 0x0f pk.length
+                else header 0xc0 0x3f pk.length)
+    ++ packNibs pk
+    ++ leBytes 2 ((kids.zipIdx.map fun (k, i) => if k.isNil then 0 else 2 ^ i).sum)
+    ++ (match v with | none => [] | some x => encodeValue ver H x)
+    ++ kids.flatMap (fun k => if k.isNil then [] else Gossamer.scaleBytes (Gossamer.merkleValue H k.enc))
+
+def annot (ver : Ver) (H : Bytes → Bytes) : Trie → ETrie
+  | .nil => .nil
+  | .leaf pk v => .leaf (encodeNode ver H (.leaf pk v)) pk v
+  | .branch pk v cs =>
+    let kids := (List.finRange 16).map fun i => annot ver H (cs i)
+    .branch (encBranch ver H pk v kids) pk v kids
+
+mutual
+def walkE (ver : Ver) : Bool → ETrie → Nibs → Option (List Bytes)
+  | _, .nil, key => if key.length = 0 then some [] else none
+  | isRoot, .leaf enc pk v, key =>
     let me := if isRoot || decide (enc.length ≥ 32) then [enc] else []
-    if pk == key then me ++ valueNode ver (some v) else me
-  | isRoot, .branch pk v cs, key =>
-    let enc := encodeNode ver H (.branch pk v cs)
+    if key.length = 0 || pk == key then some (me ++ valueNode ver (some v)) else none
+  | isRoot, .branch enc pk v kids, key =>
     let me := if isRoot || decide (enc.length ≥ 32) then [enc] else []
-    if pk == key then me ++ valueNode ver v
-    else if !(pk.isPrefixOf key) then me
+    if key.length = 0 || pk == key then some (me ++ valueNode ver v)
+    else if !(decide (key.length > pk.length)) then none
     else
-      match key.drop pk.length with
-      | i :: rest => me ++ pathNodes ver H false (cs i) rest
-      | [] => me
+      match key.drop (Trie.lcpLen pk key) with
+      | i :: rest =>
+        match walkKid ver kids i.val rest with
+        | some deeper => some (me ++ deeper)
+        | none => none
+      | [] => none
+def walkKid (ver : Ver) : List ETrie → Nat → Nibs → Option (List Bytes)
+  | [], _, key => if key.length = 0 then some [] else none
+  | c :: _, 0, key => walkE ver false c key
+  | _ :: cs, i + 1, key => walkKid ver cs i key
+end
+
+def generateFromE (ver : Ver) (H : Bytes → Bytes) (t : ETrie) :
+    List Bytes × List Bytes → List Bytes → Option (List Bytes)
+  | st, [] => some st.2
+  | st, k :: ks =>
+    match walkE ver true t (Trie.keyLEToNibbles k) with
+    | none => none
+    | some ns => generateFromE ver H t (dedupInto H st ns) ks
+
+def generateE (ver : Ver) (H : Bytes → Bytes) (t : ETrie) (keys : List Bytes) : Option (List Bytes) :=
+  generateFromE ver H t ([], []) keys
 
 end Gossamer.C05
